@@ -461,12 +461,21 @@ class Registration(Endpoint):
         logger.debug("Stored client info in CDB under cid={}".format(client_id))
 
         _context.cdb[client_id] = _cinfo
-        _cinfo = self.do_client_registration(
-            request,
-            client_id,
-            ignore=["redirect_uris", "policy_uri", "logo_uri", "tos_uri"],
-        )
+        try:
+            _cinfo = self.do_client_registration(
+                request,
+                client_id,
+                ignore=["redirect_uris", "policy_uri", "logo_uri", "tos_uri"],
+            )
+        except Exception:
+            if new_id:
+                self._forget_client(client_id, _context)
+            raise
         if isinstance(_cinfo, ResponseMessage):
+            if new_id:
+                # a rejected registration must not leave a client record (with a live
+                # secret and registration access token) behind
+                self._forget_client(client_id, _context)
             return _cinfo
 
         args = dict([(k, v) for k, v in _cinfo.items() if k in self.response_cls.c_param])
@@ -490,6 +499,15 @@ class Registration(Endpoint):
         logger.info(msg.format(sanitize(response.to_dict())))
 
         return response
+
+    @staticmethod
+    def _forget_client(client_id, context):
+        try:
+            del context.cdb[client_id]
+        except KeyError:
+            pass
+        for _rat in [t for t, c in context.registration_access_token.items() if c == client_id]:
+            del context.registration_access_token[_rat]
 
     def process_request(self, request=None, new_id=True, set_secret=True, **kwargs):
         try:
